@@ -57,7 +57,9 @@ struct QsEngine : Engine {
 	const char *cfg_name(int c) override { return c >= 0 && c < 3 ? cfg_names[c] : "?"; }
 	const char *property_of(const std::string &cls, const std::string &) override { return "C11"; }
 	bool panic_is_stop(const char *msg) override {
-		if (strstr(msg, "'!_qs_deferred'")) { probe(P_deferred_stop); return true; } // documented TODO in offline()
+		// documented TODO in offline(): "We need to handle this case here" — the agent holding the deferred period cannot
+		// go offline. Matched by the flag's name, tolerant of a rename that keeps the word (the op must be offline).
+		if (cur_opkind() == OP_OFFLINE && (strstr(msg, "'!_qs_deferred'") || strstr(msg, "deferred"))) { probe(P_deferred_stop); return true; }
 		return false;
 	}
 	void describe(std::map<std::string, std::string> &kv) override {
@@ -207,7 +209,7 @@ struct QsEngine : Engine {
 		open_iv(me);
 		sut_qs(mt, ag[me].mem);
 		close_iv(me);
-		if (sut_agent_deferred(mt, ag[me].mem)) probe(P_deferred);
+		if (sut_agent_deferred(mt, ag[me].mem) > 0) probe(P_deferred);
 	}
 	void do_run(int me) {
 		if (ag[me].st != 1) probe(P_offline_run);
@@ -229,7 +231,7 @@ struct QsEngine : Engine {
 			break;
 		case OP_OFFLINE:
 			if (a.st != 1) { probe(P_skipped); return; }
-			if (sut_agent_deferred(mt, a.mem) && !plan().knob("allow_deferred_offline", 0)) { probe(P_deferred_stop); return; } // documented TODO in offline(): precondition, not a finding
+			if (sut_agent_deferred(mt, a.mem) > 0 && !plan().knob("allow_deferred_offline", 0)) { probe(P_deferred_stop); return; } // documented TODO in offline(): precondition, not a finding
 			if (pending) probe(P_leave_mid);
 			revalidate(me);
 			a.st = 3;
